@@ -1,0 +1,86 @@
+//go:build verif
+
+package mjml
+
+import (
+	"sync/atomic"
+	"time"
+)
+
+// VerifYield, when set, is called before every shared-memory action of the cache path
+// (single-flight steps, cleanup goroutine lifecycle).
+var VerifYield atomic.Pointer[func(point string)]
+
+func verifYield(p string) {
+	if f := VerifYield.Load(); f != nil {
+		(*f)(p)
+	}
+}
+
+// VerifHash, when set, replaces hashTemplate (lets the harness force key collisions).
+var VerifHash atomic.Pointer[func(s string) uint64]
+
+func verifHashOverride(s string) (uint64, bool) {
+	if f := VerifHash.Load(); f != nil {
+		return (*f)(s), true
+	}
+	return 0, false
+}
+
+// VerifSingleflightDo exposes singleflightDo to the verification harness.
+func VerifSingleflightDo(hash uint64, fn func() (*MJMLNode, error)) (*MJMLNode, error) {
+	return singleflightDo(hash, fn)
+}
+
+// VerifCacheLen returns the number of entries currently stored in the AST cache.
+func VerifCacheLen() int {
+	n := 0
+	astCache.Range(func(_, _ interface{}) bool { n++; return true })
+	return n
+}
+
+// VerifCacheClear removes every cache entry.
+func VerifCacheClear() {
+	astCache.Range(func(k, _ interface{}) bool { astCache.Delete(k); return true })
+}
+
+// VerifShiftExpiries moves every entry's expiry d closer (simulates d of elapsed time for the entries).
+func VerifShiftExpiries(d time.Duration) {
+	astCache.Range(func(k, v interface{}) bool {
+		e := v.(*cachedAST)
+		astCache.Store(k, &cachedAST{node: e.node, expires: e.expires.Add(-d)})
+		return true
+	})
+}
+
+// VerifExpiries lists the remaining lifetime of every entry relative to now.
+func VerifExpiries() []time.Duration {
+	now := time.Now()
+	var out []time.Duration
+	astCache.Range(func(_, v interface{}) bool {
+		out = append(out, v.(*cachedAST).expires.Sub(now))
+		return true
+	})
+	return out
+}
+
+// VerifCleanerArmed reports whether a cleanup goroutine is registered (cleanupCancel != nil).
+func VerifCleanerArmed() bool {
+	cacheCleanupMutex.Lock()
+	defer cacheCleanupMutex.Unlock()
+	return cleanupCancel != nil
+}
+
+// VerifCacheConfig returns the effective TTL and cleanup interval.
+func VerifCacheConfig() (time.Duration, time.Duration) {
+	cacheConfigMutex.RLock()
+	defer cacheConfigMutex.RUnlock()
+	return astCacheTTL, astCacheCleanupInterval
+}
+
+// VerifSingleflightInFlight returns the number of registered in-flight calls.
+func VerifSingleflightInFlight() int {
+	sfMutex.Lock()
+	defer sfMutex.Unlock()
+	return len(sfCalls)
+}
